@@ -82,3 +82,11 @@ Theorem C14_gmsh_file_loads_zero_based : forall (K : Type) (round32 : K -> K) (z
   read_gmsh round32 zK (lines_of (gmsh_lines ver dsize ns es)) = Some (map (fun n => r3 round32 (snd n)) ns, map snd es).
 Proof. exact @gmsh_file_loads. Qed.
 Print Assumptions C14_gmsh_file_loads_zero_based.
+
+(* VTK files with TRIANGLE_STRIPS written by other tools load to the triangles the format definition assigns to every strip
+   (strip_spec: triangle j of a strip is (pj, pj+1, pj+2), with the first two corners exchanged for odd j) *)
+Theorem C14_vtk_triangle_strips_load : forall (K : Type) (round32 : K -> K) (zK : Z -> K) (v : list (K * K * K)) (ss : list (list nat)) total,
+  concat (map strip_spec ss) <> [] ->
+  read_vtk_tria round32 zK (lines_of (strips_file v ss total)) = Some (map (r3 round32) v, concat (map strip_spec ss)).
+Proof. exact @vtk_strips_file_loads. Qed.
+Print Assumptions C14_vtk_triangle_strips_load.
